@@ -1,5 +1,5 @@
 """Per-property dynamic checks (correspondence + monitors + targeted generators)."""
-import json, os, random, subprocess, sys
+import json, os, random, re, subprocess, sys
 from common import *
 import driver, history, monitors, runner
 
@@ -19,6 +19,246 @@ def run_script(ctx, name, args, key, env=None, timeout=3000):
                        text=True, timeout=timeout, env=e)
     ctx.cov[key] = {'rc': p.returncode, 'tail': p.stdout[-800:]}
     return p
+
+
+def _sched_worker(args):
+    seed, kw = args
+    import common, sched
+    common.INTERN.__init__()
+    rpc = Rpc()
+    try:
+        r = sched.SchedRun(rpc, random.Random(seed), **kw)
+        try:
+            r.run()
+            term = r.coq_case()
+            defs = common.INTERN.defs_for(term)
+            info = r.describe()
+            info['seed'] = seed
+            info['states_seen'] = r.states_seen
+            info['final_state'] = r.final_state
+            info['final_events_n'] = len(r.final_events or [])
+            outs = []
+            for p in r.procs:
+                outs.append({'kind': p.kind, 'rc': p.rc, 'state': p.state, 'stdout': p.out.decode('utf-8', 'replace')[:4000],
+                             'appended': p.appended, 'req': dict(p.req) if p.req else None})
+            info['outs'] = outs
+            # post-run health: the store must still be readable and writable
+            rc1, out1, err1 = r.store.run(['--json', 'list', '--all'])
+            rc2, out2, err2 = r.store.run(['--json', 'new', 'task'], stdin=b'{"title":"after the storm"}')
+            rc3, out3, err3 = r.store.run(['--json', 'list', '--all'])
+            info['post'] = {'list_rc': rc1, 'new_rc': rc2, 'list2_rc': rc3, 'err': (err1 + err2 + err3).decode('utf-8', 'replace')[:300],
+                            'new_visible': rc2 == 0 and rc3 == 0 and json.loads(out2)['id'] in [t['id'] for t in json.loads(out3)]}
+            resp = rpc.call(op='snapshot', dir=r.store.ergodir)
+            info['final_snapshot'] = resp.get('ok') if 'ok' in resp and 'tasks' in resp.get('ok', {}) else None
+            return term, defs, info, None
+        finally:
+            r.close()
+    except Exception as e:
+        import traceback
+        return None, None, {'seed': seed}, traceback.format_exc()[-1500:]
+    finally:
+        rpc.close()
+
+
+def sched_check(ctx, n, kw, monitor, tags=('SchedOutcome', 'SchedFinalLog', 'SchedTail')):
+    import multiprocessing, common
+    seeds = [ctx.seed * 7001 + k for k in range(n)]
+    with multiprocessing.Pool(10) as pool:
+        res = pool.map(_sched_worker, [(sd, kw) for sd in seeds], chunksize=1)
+    ok = [(t, d, i) for (t, d, i, e) in res if e is None]
+    errs = [(i, e) for (t, d, i, e) in res if e is not None]
+    wd = mkscratch('ergo-sched-')
+    mism, coqerrs = [], []
+    try:
+        shard = 8
+        procs = []
+        for k in range(0, len(ok), shard):
+            part = ok[k:k + shard]
+            name = os.path.join(wd, 'sched_%d.v' % (k // shard))
+            with open(name, 'w') as f:
+                f.write(CASES_HEADER + 'From Ergo Require Import Sched Concurrent.\nFrom ErgoRun Require Import SchedCheck.\n')
+                terms = []
+                for j, (term, defs, _) in enumerate(part):
+                    pre = 'c%d_' % j
+                    f.write(re.sub(r'\bk([sz]\d+)\b', lambda m: pre + 'k' + m.group(1), defs))
+                    terms.append(re.sub(r'\bk([sz]\d+)\b', lambda m: pre + 'k' + m.group(1), term))
+                f.write('Definition cases : list schedcase := [\n' + ';\n'.join(terms) + '\n].\n')
+                f.write('Definition M := Eval vm_compute in run_schedcases cases.\nPrint M.\n')
+            procs.append((k, name, subprocess.Popen(['coqc', '-Q', os.path.join(COQ, 'theories'), 'Ergo', '-Q', os.path.join(COQ, 'run'),
+                                                     'ErgoRun', '-w', '-all', name], cwd=wd, stdout=subprocess.PIPE, stderr=subprocess.STDOUT)))
+        for k, name, p in procs:
+            out, _ = p.communicate()
+            text = out.decode('utf-8', 'replace')
+            flat = ' '.join(text.split())
+            if p.returncode != 0:
+                coqerrs.append(text[-800:])
+            elif not re.search(r'M\s*=\s*\[\s*\]', flat):
+                for m in re.finditer(r'\((\d+),\s*"([A-Za-z]+)"\)', flat):
+                    mism.append((k + int(m.group(1)), m.group(2)))
+    finally:
+        shutil.rmtree(wd, ignore_errors=True)
+    acts = {}
+    outcomes = {}
+    for _, _, info in ok:
+        for (_, a) in info['schedule']:
+            key = a.split()[0].strip('(')
+            acts[key] = acts.get(key, 0) + 1
+        for o in info['outs']:
+            key = '%s:%s' % (o['kind'], o['state'] if o['state'] in ('dead', 'done_early') else ('rc%s' % o['rc']))
+            outcomes[key] = outcomes.get(key, 0) + 1
+    ctx.cov['schedules'] = ctx.cov.get('schedules', 0) + len(ok)
+    ctx.cov['traces_validated_against_impl'] = ctx.cov.get('traces_validated_against_impl', 0) + len(ok)
+    for k2, v in acts.items():
+        ctx.cov.setdefault('schedule_actions', {})[k2] = ctx.cov.get('schedule_actions', {}).get(k2, 0) + v
+    for k2, v in outcomes.items():
+        ctx.cov.setdefault('process_outcomes', {})[k2] = ctx.cov.get('process_outcomes', {}).get(k2, 0) + v
+    ctx.cov['schedule_lengths'] = sorted({len(i['schedule']) for _, _, i in ok})[:12]
+    if ok:
+        ctx.samples.append({'schedule_seed': ok[0][2]['seed'], 'processes': [(o['kind'], (o['req'] or {}).get('k')) for o in ok[0][2]['outs']],
+                            'schedule': ok[0][2]['schedule'][:25]})
+    for i, e in errs[:2]:
+        ctx.violations.append(('broken', 'schedule run failed (controller): %s' % e[-300:], {'kind': 'schedule', 'seed': i['seed'], 'error': e}))
+    for e in coqerrs[:1]:
+        ctx.violations.append(('broken', 'schedule case evaluation failed: %s' % e[-300:], {'coq_error': e}))
+    seen = set()
+    for (i, tg) in mism:
+        if tg in tags and tg not in seen:
+            seen.add(tg)
+            info = ok[i][2]
+            mf = monitor(info) if monitor else []
+            ctx.violations.append(('monitor' if mf else 'mismatch', 'model/implementation disagree on %s for schedule seed %d' % (tg, info['seed']),
+                                   {'kind': 'schedule', 'tag': tg, 'seed': info['seed'], 'processes': info['processes'], 'schedule': info['schedule'],
+                                    'monitor': mf, 'no_failing_input': not mf}))
+    if monitor:
+        for _, _, info in ok:
+            for f in monitor(info):
+                if f[0] in seen:
+                    continue
+                seen.add(f[0])
+                ctx.violations.append(('monitor', 'schedule monitor: %s' % json.dumps(f, default=str)[:300],
+                                       {'kind': 'schedule', 'seed': info['seed'], 'failure': f, 'processes': info['processes'], 'schedule': info['schedule']}))
+    return ok
+
+
+def mon_sched_common(info):
+    out = []
+    fs = info.get('final_snapshot')
+    if info['post']['list_rc'] != 0 or info['post']['new_rc'] != 0 or info['post']['list2_rc'] != 0 or not info['post']['new_visible']:
+        out.append(('store_unusable_after_run', info['post']))
+    if fs is None:
+        out.append(('final_store_unreadable',))
+        return out
+    # acknowledged appends are still there (unless a compaction ran)
+    compacted = any((o['req'] or {}).get('k') == 'compact' and o['rc'] == 0 for o in info['outs'])
+    if not compacted:
+        finals = fs['events']
+        for o in info['outs']:
+            if o['kind'] == 'w' and o['rc'] == 0 and o['appended']:
+                for e in o['appended']:
+                    if e not in finals:
+                        out.append(('acknowledged_event_lost', o['req'].get('k')))
+                        break
+    # a failed or busy command contributed nothing
+    for o in info['outs']:
+        if o['kind'] == 'w' and o['rc'] not in (0, None) and o['state'] == 'done' and o['appended']:
+            out.append(('failed_command_wrote', o['req'].get('k')))
+    return out
+
+
+def mon_C01_sched(info):
+    out = mon_sched_common(info)
+    won = {}
+    for o in info['outs']:
+        if o['kind'] == 'w' and o['rc'] == 0 and (o['req'] or {}).get('k') == 'claim' and o['req'].get('id') is None:
+            try:
+                v = json.loads(o['stdout'])
+            except Exception:
+                continue
+            if v.get('status') == 'no_ready':
+                continue
+            won.setdefault(v['id'], []).append(o['req']['agent'])
+    fs = info.get('final_snapshot') or {'tasks': []}
+    others = any((o['req'] or {}).get('k') not in ('claim', None) for o in info['outs'] if o['kind'] == 'w')
+    for i, agents in won.items():
+        if len(agents) > 1 and not others:
+            out.append(('task_won_twice', i, agents))
+        t = monitors.tasks_by_id(fs).get(i)
+        if t is not None and not others and (t['state'] != 'doing' or t['claimed_by'] not in agents):
+            out.append(('winner_does_not_hold_task', i, t['state'], t['claimed_by']))
+    return out
+
+
+def mon_C04_sched(info):
+    out = mon_sched_common(info)
+    fs = info.get('final_snapshot')
+    if fs:
+        tr = {'after': fs}
+        for f in monitors.mon_C06(tr):
+            out.append(('half_applied:' + f[0],) + tuple(f[1:]))
+        # a killed process' events: all or none
+        finals = fs['events']
+        for o in info['outs']:
+            if o['kind'] == 'w' and o['state'] == 'dead' and o['appended']:
+                present = [e in finals for e in o['appended']]
+                if any(present) and not all(present):
+                    out.append(('partially_applied', (o['req'] or {}).get('k'), present))
+    return out
+
+
+def mon_C13_sched(info):
+    out = mon_sched_common(info)
+    for o in info['outs']:
+        if o['kind'] in ('rdecode', 'rlist') and o['state'] != 'dead':
+            if o['rc'] != 0:
+                out.append(('reader_failed', o['kind'], o['rc']))
+                continue
+            if o['kind'] == 'rdecode':
+                try:
+                    if 'ok' not in json.loads(o['stdout']):
+                        out.append(('reader_error', o['stdout'][:200]))
+                except Exception:
+                    out.append(('reader_garbage', o['stdout'][:100]))
+            else:
+                try:
+                    items = json.loads(o['stdout'])
+                except Exception:
+                    out.append(('reader_garbage', o['stdout'][:100]))
+                    continue
+                got = sorted((t['id'], t['state'], t.get('claimed_by', ''), t['title']) for t in items)
+                seen = [sorted(x for x in st if True) for st in info['states_seen'] if st is not None]
+                # list --all shows tasks only (no epics); project the recorded states accordingly by id set
+                ids = {g[0] for g in got}
+                ok = any(sorted(x for x in st if x[0] in ids) == got and len([x for x in st]) >= len(got) for st in seen)
+                if not ok and got:
+                    out.append(('reader_saw_state_never_passed_through', got[:3]))
+    return out
+
+
+def check_C01(ctx):
+    n = 60 if ctx.quick() else 800
+    sched_check(ctx, n, {'nwriters': 4, 'nreaders': 0, 'claimers': True, 'pre_steps': 10}, mon_C01_sched)
+    sched_check(ctx, n // 2, {'nwriters': 4, 'nreaders': 0, 'pre_steps': 8}, mon_C01_sched)
+
+
+def check_C02(ctx):
+    n = 90 if ctx.quick() else 1200
+    sched_check(ctx, n, {'nwriters': 4, 'nreaders': 1}, mon_sched_common)
+
+
+def check_C03(ctx):
+    n = 90 if ctx.quick() else 1200
+    sched_check(ctx, n, {'nwriters': 4, 'nreaders': 1, 'kills': 0.12, 'tears': 0.7}, mon_sched_common)
+    sched_check(ctx, n // 3, {'nwriters': 3, 'nreaders': 0, 'kills': 0.08, 'tears': 0.6, 'pre_tear': True}, mon_sched_common)
+
+
+def check_C04(ctx):
+    n = 90 if ctx.quick() else 1200
+    sched_check(ctx, n, {'nwriters': 4, 'nreaders': 0, 'kills': 0.22, 'tears': 0.0}, mon_C04_sched)
+
+
+def check_C13(ctx):
+    n = 90 if ctx.quick() else 1200
+    sched_check(ctx, n, {'nwriters': 3, 'nreaders': 3}, mon_C13_sched)
 
 
 def check_C05(ctx):
